@@ -329,6 +329,8 @@ func runHandshake(r *h.Run, prop string) {
 	raw, _ := base64.StdEncoding.DecodeString(r.Spec.P("out", ""))
 	text := string(raw)
 	text = strings.ReplaceAll(text, "{LONG70000}", strings.Repeat("z", 70000))
+	text = strings.ReplaceAll(text, "{PAD5000}", strings.Repeat("x", 5000))
+	text = strings.ReplaceAll(text, "{PAD100}", strings.Repeat("x", 100))
 	cert := ""
 	if strings.Contains(text, "{CERT}") {
 		cert = genCertB64()
@@ -518,6 +520,19 @@ func hsSpecs(prop string, seed uint64, confs []hsConf, launches []string) []*k.S
 					pp[kk] = v
 				}
 				out = append(out, sp(prop, fmt.Sprintf("timing/c%d/%s/t%d", ci, launch, ti), seed, pp))
+			}
+			// more output right behind the line, in the same write: the beginning of
+			// a next line that looks like another handshake, with and without enough
+			// bytes behind it to fill the reader's buffer
+			other := "1|1|tcp|127.0.0.1:4321|netrpc|"
+			bumped := strings.Split(valid, "|")
+			if len(bumped) > 1 {
+				bumped[1] = "9"
+			}
+			for fi, first := range []string{valid, strings.Join(bumped, "|")} {
+				for ti, tail := range []string{other + "{PAD5000}", other + "{PAD100}", other, "{PAD5000}", other + "{PAD5000}\n"} {
+					out = append(out, sp(prop, fmt.Sprintf("tail/c%d/%s/l%d/t%d", ci, launch, fi, ti), seed, cp(c.params(), "launch", launch, "out", b64(first+"\n"+tail))))
+				}
 			}
 			// no output at all
 			for ei, e := range []string{"stay", "exit:0", "exit:2", "closeout", "closeboth"} {
